@@ -1,16 +1,65 @@
 """Which models, drivers and trace specifications decide which property."""
+import os, json, re, subprocess, random, hashlib
+
+ROOT = os.path.dirname(os.path.dirname(os.path.abspath(__file__)))
+SPEC = os.path.join(ROOT, "spec")
+CP = f"{SPEC}/classes:/opt/veriftools/tla/tla2tools.jar:/opt/veriftools/tla/CommunityModules-deps.jar"
 
 MODELS = {
     "MC_Epoch": {"module": "MC_Epoch", "quick": "MC_Epoch.cfg", "thorough": "MC_Epoch_thorough.cfg",
                  "workers": 4, "timeout_quick": 120, "timeout_thorough": 900,
                  "sample": "every (genesis, duration) in the config's ranges, time advancing second by second, "
                            "owner/non-owner config updates; C18 invariants and action properties"},
+    "MC_Farm": {"module": "MC_Farm", "quick": "MC_Farm.cfg", "thorough": "MC_Farm_thorough.cfg",
+                "workers": 10, "timeout_quick": 600, "timeout_thorough": 3000,
+                "sample": "all interleavings of open/expand/partial+full close/emergency/claim(until)/advance, 2 users, "
+                          "implementation-shaped sparse weight history vs dense reference ledger"},
+    "MC_FarmLife": {"module": "MC_FarmLife", "quick": "MC_FarmLife.cfg", "thorough": "MC_FarmLife_thorough.cfg",
+                    "workers": 10, "timeout_quick": 600, "timeout_thorough": 3000,
+                    "sample": "farm create/expand/close/auto-close, positions create(for)/expand/close(partial)/withdraw/emergency, "
+                              "claims, swallowed refunds, reward denom = LP denom; custody, conservation, limits"},
 }
+
+
+def farm_behaviours(seed, tier, tdir):
+    """TLC -simulate on MC_Farm prints complete behaviours; they are replayed on the real contracts."""
+    n = 400 if tier == "thorough" else 60
+    num = 4000 if tier == "thorough" else 300
+    cmd = ["timeout", "600", "java", "-XX:+UseParallelGC", "-Xmx4g", "-cp", CP, "tlc2.TLC", "-workers", "1",
+           "-simulate", f"num={num}", "-depth", "40", "-seed", str(seed), "-metadir", os.path.join(tdir, "sim"),
+           "-cleanup", "-noGenerateSpecTE", "-config", "MC_Farm_sim.cfg", "MC_Farm.tla"]
+    p = subprocess.run(cmd, cwd=SPEC, capture_output=True, text=True)
+    seen, out = set(), []
+    for l in p.stdout.splitlines():
+        if l.startswith('<<"REPLAY", '):
+            j = json.loads(l.strip()[len('<<"REPLAY", '):-2])
+            if j not in seen:
+                seen.add(j)
+                out.append(j)
+    if "is violated" in p.stdout or not out:
+        raise RuntimeError("MC_Farm simulation failed or violated an invariant:\n" + p.stdout[-3000:])
+    random.Random(seed).shuffle(out)
+    path = os.path.join(tdir, "farm_behaviours.ndjson")
+    open(path, "w").write("\n".join(out[:n]) + "\n")
+    m = re.search(r"(\d+) states checked, (\d+) traces generated", p.stdout)
+    return {"args": ["--behaviours", path, "--rate", "1000", "--fstart", "1", "--fend", "5"],
+            "info": {"behaviours_distinct": len(seen), "replayed": min(n, len(out)),
+                     "sim_states": int(m.group(1)) if m else 0, "sample_behaviour": json.loads(out[0])}}
+
 
 FAMILIES = {
     "epoch": {"drivers": [{"name": "epoch", "spec": "Trace_Epoch"}]},
+    "farm": {"drivers": [{"name": "farm", "spec": "Trace_Farm"},
+                         {"name": "farm_replay", "spec": "Trace_Farm", "pre": farm_behaviours}]},
 }
 
 PROPS = {
+    "C05": {"level": "model_checking", "models": ["MC_FarmLife"], "families": ["farm"]},
+    "C06": {"level": "model_checking", "models": ["MC_Farm", "MC_FarmLife"], "families": ["farm"]},
+    "C07": {"level": "model_checking", "models": ["MC_Farm"], "families": ["farm"]},
+    "C08": {"level": "model_checking", "models": ["MC_FarmLife"], "families": ["farm"]},
+    "C09": {"level": "model_checking", "models": ["MC_FarmLife"], "families": ["farm"]},
+    "C10": {"level": "model_checking", "models": ["MC_Farm"], "families": ["farm"]},
+    "C11": {"level": "model_checking", "models": ["MC_FarmLife"], "families": ["farm"]},
     "C18": {"level": "model_checking", "models": ["MC_Epoch"], "families": ["epoch"]},
 }
